@@ -174,6 +174,21 @@ def guarded_interproc(
     return True, []
 
 
+def require_total(rep, ctx: "Ctx", rule: str, fi: FuncInfo, what: str = "") -> bool:
+    """TOTAL: a value-returning function hands its value back on every normal path (no fall-through / bare return)."""
+    g = ctx.cfg(fi)
+    bad = []
+    for p in g.pred.get(g.exit, []):
+        n = g.nodes[p]
+        if isinstance(n.stmt, ast.Return) and n.kind == "stmt":
+            if n.stmt.value is None:
+                bad.append(f"L{n.lineno}: bare return")
+        else:
+            bad.append(f"falls off the end after L{n.lineno}: {n.text()[:50]}")
+    return rep.check(not bad, rule, fi.qual, f"{fi.name} returns its result on every normal path{(' (' + what + ')') if what else ''}", fi.loc(), construct=f"{fi.name} result on all paths",
+                     message=f"{fi.qual} can end without returning its result ({'; '.join(bad)}): callers receive None", path=bad)
+
+
 def _is_private(fi: FuncInfo) -> bool:
     n = fi.name
     return (n.startswith("_") and not (n.startswith("__") and n.endswith("__"))) or fi.parent is not None
